@@ -61,6 +61,13 @@ def run(rep, tier, seed, replay):
                 "with the parser model; non-trivial = has at least one reported span and a multi-byte character or a branch")
     exprs = lib.inputs(rep, "C17", tier, seed, 3000, 40000, replay, malformed_share=0.45)
     if replay is None:
+        # expressions with outer whitespace (ordinary literal text in a glob): spans index the string the caller passed,
+        # whichever route builds it
+        import random as _r
+        rw = _r.Random(seed + 17)
+        ws = [" ", "\t", "\u3000", "\u00a0", "  ", "\n"]
+        exprs += [rw.choice(ws) + e for e in rw.sample(exprs, min(len(exprs), 150))] + [e + rw.choice(ws) for e in rw.sample(exprs, min(len(exprs), 60))]
+        exprs += ["\u3000a{", "\u00a0é*", " */?.txt", "  a//b", " é\\", "\té{"]
         exprs += [e for e in ["é\\", "(?i)", "a(?i)", "日本{", "{日本", "a/**/{é,ǅ}/*", "é*é", "<é:1,2>日", "a//b", "é//b", "{a,/b}", "日{**}", "<日:3,1>", "é<*>", "日**", "a{", "日本\\"] if e not in set(exprs)]
     P = lib.Pair(exprs)
     h, m = P.h, P.m
@@ -74,6 +81,12 @@ def run(rep, tier, seed, replay):
         if "PANIC" in s:
             rep.violation("oracle", "slicing the expression by a reported span panics", {"expr": e}, impl=s[:300])
             continue
+        if " routes=" in s and not s.endswith(" routes=same"):
+            rep.violation("oracle", "the spans reported for the same string differ between Glob::new, FromStr and TryFrom (they index the string the caller passed)",
+                          {"expr": e, "what": "routes"}, impl=s[s.index(" routes=") + 1:][:300])
+        elif " routes=" in s:
+            rep.stats["spans: new = from_str = try_from"] += 1
+        s = s.split(" routes=")[0]
         if s.startswith("err"):
             kind = i.get("err", "?")
             rep.stats["error:" + kind] += 1
